@@ -74,12 +74,12 @@ def copy_harness(work):
     return h
 
 
-def build_vh(work):
+def build_vh(work, race=False):
     """Build the trace generator from /repo's CURRENT working tree with the verif hooks on."""
     h = copy_harness(work)
-    out = work.path("vh")
-    cov = ["-cover", "-coverpkg=" + COVERPKG] if COVER else []
-    run(["go1.26", "build", "-tags", "verif", *cov, "-o", out, "./cmd/vh"], cwd=h, env=GOENV, timeout=900, check=True)
+    out = work.path("vh.race" if race else "vh")
+    cov = ["-cover", "-coverpkg=" + COVERPKG] if COVER and not race else []
+    run(["go1.26", "build", "-tags", "verif", *cov, *(["-race"] if race else []), "-o", out, "./cmd/vh"], cwd=h, env=GOENV, timeout=900, check=True)
     return out
 
 
